@@ -85,7 +85,11 @@ def showHeld (ts : List Task) : String :=
   "/".intercalate (ts.map (fun t =>
     if t.held.isEmpty then "-" else ",".intercalate (t.held.map (fun p => s!"{p.1}@{p.2}"))))
 
-def showHand (h : Hand) : String := s!"{h.conn}@{h.lastUse}<{h.now}"
+def showHand (h : Hand) : String :=
+  let rk := match h.retKey with
+    | some k => toString k
+    | none => "-"
+  s!"{h.conn}@{h.lastUse}<{h.now}k{h.key}r{rk}@{h.retAt}"
 
 def showState (s : St) (nw : Nat) : String :=
   s!"H={showHeld (s.tasks.take nw)} X={natList s.closed.reverse} L={natList s.leaked.reverse} " ++
@@ -93,7 +97,95 @@ def showState (s : St) (nw : Nat) : String :=
   s!"T={s.tasks.length} R={natList ((s.recvLog.reverse).map (·.1))} " ++
   s!"G={if s.handLog.isEmpty then "-" else ",".intercalate (s.handLog.reverse.map showHand)}"
 
+/-! ### `mx`: sequential histories of the real remote target (real `mxConn` objects in the real pool)
+
+`mx <maxKeys> <maxConns> <maxLife> <stale> <ops>`; ops: `o<k>` a delivery to domain `k` starts and sends its message
+(`pool.Get`, then MAIL/RCPT/DATA stamp the connection), `c` the oldest open delivery ends (`remoteDelivery.Close`:
+`pool.Return`), `t<d>` the clock moves, `b<c>` the server drops connection `c` (ignored while a delivery holds it),
+`k` `pool.CleanUp`, `s` `pool.Close`.  One model worker per delivery (`get k, use, ret`) plus one for the sweeps and
+the shutdown; every call runs to completion, and the `go conn.Close()` goroutines run right away. -/
+
+inductive MxOp
+  | open_ (k : Nat) | commit | tick (d : Nat) | brk (c : Nat) | sweep | shut
+
+def parseMxOp (s : String) : Option MxOp :=
+  match s.toList with
+  | ['c'] => some .commit
+  | ['k'] => some .sweep
+  | ['s'] => some .shut
+  | 'o' :: rest => (String.ofList rest).toNat?.map MxOp.open_
+  | 't' :: rest => (String.ofList rest).toNat?.map MxOp.tick
+  | 'b' :: rest => (String.ofList rest).toNat?.map MxOp.brk
+  | _ => none
+
+/-- run goroutine `i` until it is back at `idle` (or finished, or cannot move) -/
+def runCall (s : St) (i : Nat) : Nat → St
+  | 0 => s
+  | fuel + 1 =>
+    match step s (.task i 0) with
+    | none => s
+    | some s' =>
+      match s'.tasks[i]? with
+      | some t => if t.pc = .idle ∨ t.pc = .done then s' else runCall s' i fuel
+      | none => s'
+
+/-- run the spawned `conn.Close()` goroutines (indexes ≥ `n0`) to their end -/
+def settle (s : St) (n0 : Nat) : St :=
+  (List.range (s.tasks.length - n0)).foldl (fun s j => runCall s (n0 + j) 4) s
+
+def heldBy (s : St) (c : Nat) : Bool := s.tasks.any (fun t => t.held.any (fun p => p.1 == c))
+
+structure MxSt where
+  s : St
+  n0 : Nat            -- number of model workers (deliveries + 1)
+  nextD : Nat := 0
+  openQ : List Nat := []
+  out : List String := []
+
+def mxStep (m : MxSt) : MxOp → MxSt
+  | .open_ _ =>
+    let j := m.nextD
+    let f0 := m.s.fresh
+    let s1 := runCall m.s j 200
+    let s2 := settle (runCall s1 j 200) m.n0
+    let tok := match s2.tasks[j]? with
+      | some t => match t.held with
+        | (c, _) :: _ => (if s2.fresh > f0 then "n" else "p") ++ toString c
+        | [] => "E"
+      | none => "E"
+    { m with s := s2, nextD := j + 1, openQ := m.openQ ++ [j], out := tok :: m.out }
+  | .commit =>
+    match m.openQ with
+    | [] => { m with out := "-" :: m.out }
+    | j :: rest => { m with s := settle (runCall m.s j 200) m.n0, openQ := rest, out := "c" :: m.out }
+  | .tick d => { m with s := next m.s (.tick d), out := "t" :: m.out }
+  | .brk c =>
+    if c < m.s.fresh ∧ ¬ heldBy m.s c then { m with s := next m.s (.brk c), out := "b" :: m.out }
+    else { m with out := "-" :: m.out }
+  | .sweep => { m with s := settle (runCall m.s (m.n0 - 1) 400) m.n0, out := "k" :: m.out }
+  | .shut => { m with s := settle (runCall m.s (m.n0 - 1) 400) m.n0, out := "s" :: m.out }
+
+def mxProgs (ops : List MxOp) : List (List Op) :=
+  let ds := ops.filterMap (fun o => match o with
+    | .open_ k => some [Op.get k, Op.use, Op.ret]
+    | _ => none)
+  let admin := ops.filterMap (fun o => match o with
+    | .sweep => some Op.cleanup
+    | .shut => some Op.shutdown
+    | _ => none)
+  ds ++ [admin]
+
+def handleMx (cfg : Cfg) (ops : List MxOp) : String :=
+  let ps := mxProgs ops
+  let m := ops.foldl mxStep { s := init cfg ps, n0 := ps.length }
+  " ".intercalate m.out.reverse ++ s!" | X={natList (sortNat m.s.closed)} F={m.s.fresh} L={natList (sortNat m.s.leaked)}"
+
 def handle : List String → String
+  | ["mx", mk, mc, ml, st, ops] =>
+    match mk.toNat?, mc.toNat?, ml.toNat?, st.toNat?, (ops.splitOn ",").mapM parseMxOp with
+    | some mk, some mc, some ml, some st, some ops =>
+      handleMx { maxKeys := mk, maxConns := mc, maxLife := ml, staleLife := st } ops
+    | _, _, _, _, _ => "bad-op"
   | ["run", mk, mc, ml, st, progs, sched] =>
     match mk.toNat?, mc.toNat?, ml.toNat?, st.toNat? with
     | some mk, some mc, some ml, some st =>
